@@ -432,6 +432,18 @@ class ImmutableSandboxedEnvironment(SandboxedEnvironment):
 
         return not modifies_known_mutable(obj, attr)
 
+    def is_safe_callable(self, obj: t.Any) -> bool:
+        if not super().is_safe_callable(obj):
+            return False
+
+        # A bound method that would modify a builtin mutable object is
+        # refused wherever the reference came from, for example a
+        # ``lst.append`` passed in the render data.
+        if isinstance(obj, (types.MethodType, types.BuiltinMethodType)):
+            return not modifies_known_mutable(obj.__self__, obj.__name__)
+
+        return True
+
 
 class SandboxedFormatter(Formatter):
     def __init__(self, env: Environment, **kwargs: t.Any) -> None:
